@@ -80,6 +80,7 @@ type c17Relay struct {
 	emitAt  time.Time
 	done    bool
 	wantPub bool
+	relayUUID string
 }
 
 func (c *c17Relay) rec(ev ...interface{}) {
@@ -415,7 +416,17 @@ func (g *c17Group) caseOf(m *message.Message) *c17Relay {
 			return c
 		}
 	}
-	return nil
+	// a copy without the context: the one message in flight that is expected to be relayed under this UUID
+	var found *c17Relay
+	for c := range g.flying {
+		if m != nil && c.wantPub && c.relayUUID == m.UUID {
+			if found != nil {
+				return nil
+			}
+			found = c
+		}
+	}
+	return found
 }
 
 func (g *c17Group) callMw(h message.HandlerFunc) message.HandlerFunc {
@@ -516,11 +527,11 @@ func (g *c17Group) feed(sub *script.Subscriber, cases []*c17Relay, seq bool) {
 			go func(c *c17Relay) {
 				defer wg.Done()
 				c.emitAt = time.Now()
-				if !sub.Emit(c.srcName, c.msg, 5*time.Second) {
+				if !sub.Emit(c.srcName, c.msg, 10*time.Second) {
 					c.rec("not-taken")
 					return
 				}
-				c.Final = script.WaitSettled(c.msg, 4*time.Second)
+				c.Final = script.WaitSettled(c.msg, 10*time.Second)
 				c.mu.Lock()
 				c.done = true
 				c.mu.Unlock()
@@ -547,6 +558,7 @@ func (s *c17State) newGroup(cases []*c17Relay, delay time.Duration) *c17Group {
 // prepare: snapshot the consumed message and attach the case to its context
 func (s *c17State) prepare(c *c17Relay, m *message.Message, src string, cancelled bool) {
 	c.msg = m
+	c.relayUUID = m.UUID
 	c.srcName = src
 	c.Src = s.in.ID(src)
 	c.Msg = s.snap(m)
@@ -634,6 +646,9 @@ func (s *c17State) forwarderGroup(group int, ackBad bool, cfgTopic string, ownRo
 		s.prepare(c, m, eff, false)
 		c.Dec = s.decode(m.Payload)
 		c.wantPub = c.Dec != nil && s.in.Tab[c.Dec.T] != ""
+		if c.Dec != nil {
+			c.relayUUID = s.in.Tab[c.Dec.U]
+		}
 		cases = append(cases, c)
 	}
 	if witness {
@@ -1049,18 +1064,18 @@ func (s *c17State) fanoutGroup(group int, subsPerTopic map[string]int, closed bo
 			wg.Add(1)
 			go func(c *c17Fanout) {
 				defer wg.Done()
-				if !src.Emit(s.in.Tab[c.Src], c.msg, 5*time.Second) {
+				if !src.Emit(s.in.Tab[c.Src], c.msg, 10*time.Second) {
 					c.Final = -1
 					return
 				}
-				c.Final = script.WaitSettled(c.msg, 4*time.Second)
+				c.Final = script.WaitSettled(c.msg, 10*time.Second)
 			}(c)
 		}
 		wg.Wait()
 		i += k
 	}
 	// every copy has been handed to its subscriber once all expected ones arrived; then a grace period for extras
-	deadline := time.Now().Add(3 * time.Second)
+	deadline := time.Now().Add(10 * time.Second)
 	for time.Now().Before(deadline) {
 		missing := false
 		for _, c := range cases {
